@@ -183,6 +183,34 @@ impl Out {
         }
         self.case_no += 1;
     }
+    /// append another stream's cases (renumbering them)
+    pub fn merge(&mut self, other: Out) {
+        let base_line = self.ops.len();
+        let base_case = self.case_no;
+        for (l, o) in other.ops.iter().zip(other.impl_out.iter()) {
+            if let Some(n) = l.strip_prefix("case ") {
+                let k: u64 = n.parse().unwrap_or(0) + base_case;
+                self.ops.push(format!("case {k}"));
+                self.impl_out.push(format!("case {k}"));
+            } else {
+                self.ops.push(l.clone());
+                self.impl_out.push(o.clone());
+            }
+        }
+        for mut v in other.oracle {
+            if let Some(l) = v.get("line").and_then(|x| x.as_u64()) { v["line"] = serde_json::json!(l + base_line as u64); }
+            if let Some(c) = v.get("case").and_then(|x| x.as_u64()) { v["case"] = serde_json::json!(c + base_case); }
+            self.oracle.push(v);
+        }
+        for (k, v) in other.hist { *self.hist.entry(k).or_insert(0) += v; }
+        for s in other.samples { if self.samples.len() < 5 { self.samples.push(s); } }
+        self.evaluations += other.evaluations;
+        for d in other.distinct { self.distinct.insert(d); }
+        self.nontrivial_rule = format!("{} || {}", self.nontrivial_rule, other.nontrivial_rule);
+        for (k, v) in other.extra { self.extra.insert(k, v); }
+        self.case_no += other.case_no;
+    }
+
     pub fn write(&self, dir: &str) {
         std::fs::create_dir_all(dir).unwrap();
         let mut f = std::fs::File::create(format!("{dir}/ops.txt")).unwrap();
